@@ -17,7 +17,8 @@ import random
 
 ACCESSES = ["public", "protected", "private"]
 
-# tag -> text template.  {N} own class name, {R} referenced class, {i} member number
+# tag -> text template.  {N} own class name, {S} own type (`N<T>` in a class template), {R} referenced class,
+# {i} member number
 MEMBER_TEXT = {
     # constructors
     "ctor-default:user": "{N}();",
@@ -26,23 +27,23 @@ MEMBER_TEXT = {
     "ctor-conv": "{N}(int);",
     "ctor-conv:explicit": "explicit {N}(int);",
     "ctor-conv2": "{N}(int, int);",
-    "ctor-copy:user": "{N}(const {N} &);",
-    "ctor-copy:default": "{N}(const {N} &) = default;",
-    "ctor-copy:delete": "{N}(const {N} &) = delete;",
-    "ctor-copy:nonconst": "{N}({N} &);",
+    "ctor-copy:user": "{N}(const {S} &);",
+    "ctor-copy:default": "{N}(const {S} &) = default;",
+    "ctor-copy:delete": "{N}(const {S} &) = delete;",
+    "ctor-copy:nonconst": "{N}({S} &);",
     # a copy constructor with a defaulted extra parameter (is a copy constructor) and two-parameter constructors whose
     # first parameter is a reference to the class (are NOT copy / move constructors)
-    "ctor-copy:dflt2": "{N}(const {N} &, int = 0);",
-    "ctor-xcopy2": "{N}(const {N} &, int);",
-    "ctor-xmove2": "{N}({N} &&, int);",
-    "ctor-xcopy3": "{N}(const {N} &, int, int);",
-    "ctor-move:user": "{N}({N} &&);",
-    "ctor-move:default": "{N}({N} &&) = default;",
-    "ctor-move:delete": "{N}({N} &&) = delete;",
-    "assign-copy:user": "{N} &operator = (const {N} &);",
-    "assign-copy:delete": "{N} &operator = (const {N} &) = delete;",
-    "assign-move:user": "{N} &operator = ({N} &&);",
-    "assign-move:delete": "{N} &operator = ({N} &&) = delete;",
+    "ctor-copy:dflt2": "{N}(const {S} &, int = 0);",
+    "ctor-xcopy2": "{N}(const {S} &, int);",
+    "ctor-xmove2": "{N}({S} &&, int);",
+    "ctor-xcopy3": "{N}(const {S} &, int, int);",
+    "ctor-move:user": "{N}({S} &&);",
+    "ctor-move:default": "{N}({S} &&) = default;",
+    "ctor-move:delete": "{N}({S} &&) = delete;",
+    "assign-copy:user": "{S} &operator = (const {S} &);",
+    "assign-copy:delete": "{S} &operator = (const {S} &) = delete;",
+    "assign-move:user": "{S} &operator = ({S} &&);",
+    "assign-move:delete": "{S} &operator = ({S} &&) = delete;",
     # destructors
     "dtor:user": "~{N}();",
     "dtor:default": "~{N}() = default;",
@@ -83,6 +84,14 @@ MEMBER_TEXT = {
     "virt:final": "void v{i}() final;",
     "virt:pure-override": "void v{i}() override = 0;",
     "virt:param-variant": "void v{i}(int);",
+    # members that depend on the template parameter ({T} is `T` in a class template, `int` otherwise)
+    "data:tparam": "{T} d{i};",
+    "data:const-tparam": "const {T} d{i};",
+    "data:ref-tparam": "{T} &d{i};",
+    "virt:pure-T": "virtual void v{i}(const {T} &) = 0;",
+    "virt:decl-T": "virtual void v{i}(const {T} &);",
+    "virt:override-T": "void v{i}(const int &) override;",
+    "virt:implicit-override-T": "void v{i}(const int &);",
     "fn:plain": "void m{i}();",
     "fn:static": "static void s{i}();",
     "fn:published": "void pm();",
@@ -129,13 +138,25 @@ PRELUDE = (
 PRELUDE_LINES = PRELUDE.count("\n")
 
 
-def member_text(m, name, rename=lambda n: n):
-    return MEMBER_TEXT[m["tag"]].format(N=name, R=rename(m["ref"]) if m.get("ref") else "", i=m.get("n", 0))
+def ref_text(e, rename):
+    """a base / member entry names an ordinary class, or a class template instantiation: `targ` "int" (or "T" inside
+    another template) spells the template-id `C5T<int>`, no `targ` uses the typedef alias `C5`"""
+    n = rename(e["ref"])
+    return (n + "T<" + e["targ"] + ">") if e.get("targ") else n
+
+
+def member_text(m, name, rename=lambda n: n, self_type=None, tparam="int"):
+    return MEMBER_TEXT[m["tag"]].format(N=name, S=self_type or name, T=tparam,
+                                        R=ref_text(m, rename) if m.get("ref") else "", i=m.get("n", 0))
 
 
 def render_class(c, rename=lambda n: n):
-    name = rename(c["name"])
-    s = c["kw"] + " " + name
+    """one line per class.  A class template `Ck` is written `template<class T> struct CkT {...}; typedef CkT<int> Ck;`
+    so that `Ck` names the instantiation that is judged."""
+    alias = rename(c["name"])
+    tmpl = bool(c.get("tmpl"))
+    name = alias + "T" if tmpl else alias
+    s = ("template<class T> " if tmpl else "") + c["kw"] + " " + name
     if c.get("final"):
         s += " final"
     if c["bases"]:
@@ -146,7 +167,7 @@ def render_class(c, rename=lambda n: n):
                 parts.append("virtual")
             if b.get("access"):
                 parts.append(b["access"])
-            parts.append(rename(b["ref"]))
+            parts.append(ref_text(b, rename))
             bl.append(" ".join(parts))
         s += " : " + ", ".join(bl)
     s += " {"
@@ -158,8 +179,11 @@ def render_class(c, rename=lambda n: n):
         if a != cur:
             s += " " + a + ":"
             cur = a
-        s += " " + member_text(m, name, rename)
+        s += " " + member_text(m, name, rename, (name + "<T>") if tmpl else name, "T" if tmpl else "int")
     s += " };"
+    if tmpl:
+        s += (" typedef " if c["tmpl"] != "using" else " using " + alias + " = ") + name + "<int>" + \
+            ((" " + alias) if c["tmpl"] != "using" else "") + ";"
     return s
 
 
@@ -238,8 +262,12 @@ def feature_tags(model, target):
         dflt = "private" if c["kw"] == "class" else ""
         if c.get("final"):
             here.add("final")
+        if c.get("tmpl"):
+            here.add("template")
         for b in c["bases"]:
             a = b.get("access") or dflt
+            if b.get("targ") == "T":
+                here.add("dependent-base")
             if b.get("virtual"):
                 here.add("vbase")
             if a in ("protected", "private"):
@@ -250,6 +278,8 @@ def feature_tags(model, target):
             a = m.get("access") or dflt
             if a in ("public", "PUBLISHED"):
                 a = ""
+            if m.get("targ") == "T":
+                here.add("dependent-member-type")
             if m["tag"] == "data:class":
                 continue        # a plain class-type member only connects two classes (see `via`)
             here.add(m["tag"] + (("@" + a) if a else ""))
@@ -262,6 +292,11 @@ def feature_tags(model, target):
 def class_features(c):
     """feature signatures of one class (for the evidence's distinct count)."""
     out = set()
+    if c.get("tmpl"):
+        out.add("template")
+    for e in c["bases"] + [m for m in c["members"] if m.get("ref")]:
+        if e.get("targ"):
+            out.add("uses-template-id<" + e["targ"] + ">")
     for b in c["bases"]:
         out.add("base:" + ("virtual-" if b.get("virtual") else "") + (b.get("access") or "default"))
     for m in c["members"]:
@@ -273,15 +308,18 @@ def class_features(c):
 # generation
 # ---------------------------------------------------------------------------
 
-def gen_model(rng, n_classes=12, depth_max=4, width_max=3, published=True):
+def gen_model(rng, n_classes=12, depth_max=4, width_max=3, published=True, templates=True):
     classes = []
     depth = {}
     vnames = {}      # class -> set of (vname, const) virtual signatures visible (approximation)
     pures = {}       # class -> set of (vname, const) still pure (approximation, only steers the generator)
     finals = set()
+    tmpls = set()
     for k in range(n_classes):
         name = f"C{k}"
         c = {"name": name, "kw": rng.choice(["struct", "struct", "class"]), "final": False, "bases": [], "members": []}
+        if templates and rng.random() < 0.15:
+            c["tmpl"] = rng.choice(["typedef", "typedef", "using"])
         # ---- bases
         cands = [x["name"] for x in classes if depth[x["name"]] < depth_max and x["name"] not in finals]
         nb = 0
@@ -302,7 +340,10 @@ def gen_model(rng, n_classes=12, depth_max=4, width_max=3, published=True):
             virt = rng.random() < 0.2
             if virt and not acc:
                 acc = "public"      # `: virtual B` without access keyword is a C06 matter (kept out of C10 inputs)
-            c["bases"].append({"ref": bn, "access": acc, "virtual": virt})
+            be = {"ref": bn, "access": acc, "virtual": virt}
+            if bn in tmpls and rng.random() < 0.7:
+                be["targ"] = "T" if (c.get("tmpl") and rng.random() < 0.5) else "int"
+            c["bases"].append(be)
             d = max(d, depth[bn] + 1)
             vis |= vnames[bn]
         depth[name] = d
@@ -315,6 +356,8 @@ def gen_model(rng, n_classes=12, depth_max=4, width_max=3, published=True):
             m = {"tag": tag, "access": access}
             if ref:
                 m["ref"] = ref
+                if ref in tmpls and rng.random() < 0.7:
+                    m["targ"] = "T" if (c.get("tmpl") and rng.random() < 0.5) else "int"
             if n is None:
                 n = idx[0]
                 idx[0] += 1
@@ -381,6 +424,10 @@ def gen_model(rng, n_classes=12, depth_max=4, width_max=3, published=True):
                 my_pure.discard((vn, const))
         if rng.random() < 0.25:
             add(rng.choice(["fn:plain", "fn:static"]))
+        if c.get("tmpl"):
+            tmpls.add(name)
+            for _ in range(rng.choice([1, 1, 2])):
+                add(rng.choice(["data:tparam", "data:tparam", "data:const-tparam", "data:ref-tparam"]))
         if published and rng.random() < 0.7:
             add("fn:published", access="PUBLISHED")
         if rng.random() < 0.06:
@@ -412,4 +459,53 @@ def gen_model(rng, n_classes=12, depth_max=4, width_max=3, published=True):
     fixed(["ctor-default:user", rng.choice(["ctor-copy:dflt2", "ctor-xcopy3"])] +
           (["ctor-move:user"] if rng.random() < 0.5 else []))
     fixed(["ctor-default:user", "ctor-xcopy2", "ctor-copy:user"])
+    if templates:
+        # always present: class templates whose special members / pure virtuals / members mention T or the
+        # template's own name, judged through their instantiation and used as base and as member of ordinary classes
+        def tfixed(members, bases=(), tmpl=None, refs=()):
+            nm = fixed([], bases=())
+            c = classes[-1]
+            if tmpl:
+                c["tmpl"] = tmpl
+                c["kw"] = "struct"
+            for b, targ in bases:
+                e = {"ref": b, "access": rng.choice(["public", ""]) if c["kw"] == "struct" else "public", "virtual": False}
+                if targ:
+                    e["targ"] = targ
+                c["bases"].append(e)
+            pub = [m for m in c["members"] if m["tag"] == "fn:published"]
+            c["members"] = []
+            for i, t in enumerate(members):
+                m = {"tag": t.split(">")[0].split("#")[0], "access": "public", "n": i}
+                if "#" in t:
+                    m["n"] = int(t.split("#")[1].split(">")[0])
+                if ">" in t:
+                    r = t.split(">")[1]
+                    m["ref"] = r.split("@")[0]
+                    if "@" in r:
+                        m["targ"] = r.split("@")[1]
+                c["members"].append(m)
+            c["members"] += pub
+            return nm
+        al = lambda: rng.choice(["typedef", "using"])
+        copyk = rng.choice(["ctor-copy:delete", "ctor-copy:delete", "ctor-copy:default", "ctor-copy:user"])
+        holder = tfixed(["ctor-default:user", copyk, "data:tparam"], tmpl=al())
+        sink = tfixed(["dtor:virtual", "virt:pure-T#0", rng.choice(["virt:pure-const#1", "virt:pure#1"])], tmpl=al())
+        tfixed([rng.choice(["virt:override-const#1", "virt:implicit-override-const#1"])] if
+               any(m["tag"] == "virt:pure-const" for m in classes[-1]["members"]) else ["virt:override#1"],
+               bases=[(sink, "int")])
+        tfixed([rng.choice(["virt:override-T#0", "virt:implicit-override-T#0"]),
+                "virt:implicit-override-const#1" if any(m["tag"] == "virt:pure-const" for m in classes[-2]["members"])
+                else "virt:implicit-override#1"], bases=[(sink, rng.choice(["int", None]))])
+        tfixed(["ctor-default:user", "ctor-copy:default", "data:class>" + nocopy, "data:tparam"], tmpl=al())
+        tfixed(["data:class>" + holder + rng.choice(["@int", ""])])
+        tfixed([], bases=[(holder, "int")])
+        # free mix of special members in a template, and a template deriving from a dependent base
+        mix = rng.sample(["ctor-default:user", "ctor-default:delete", "ctor-default:default", "ctor-copy:user",
+                          "ctor-copy:delete", "ctor-copy:default", "ctor-move:user", "ctor-move:delete",
+                          "assign-copy:delete", "dtor:user", "dtor:default", "dtor:delete", "dtor:pure"], 3)
+        fam = set()
+        mix = [t for t in mix if not (t.split(":")[0] in fam or fam.add(t.split(":")[0]))]
+        tfixed(mix + ["data:const-tparam" if rng.random() < 0.3 else "data:tparam"], tmpl=al())
+        tfixed(["data:tparam"], bases=[(holder, "T")], tmpl=al())
     return {"classes": classes}
